@@ -74,16 +74,16 @@ func c16Sets(c *fw.Ctx, cas c16Case) {
 				for k := range scratch {
 					scratch[k] = 0xEE
 				}
-				for tt, want := range perTag {
-					if !bytes.Equal(cont.GetBytes(tt), want) {
-						c.Report("sets/get-between-sets/"+cls, fmt.Sprintf("GetBytes(%d) between two sets differs from what was set so far", tt), cas)
-					}
-				}
 				if len(v) > 0 {
 					exp = append(exp, refctl.Item{Tag: byte(t), Val: v})
 				}
 				perTag[byte(t)] = append(perTag[byte(t)], v...)
 				cls += lenClass(cas.Lens[i]) + ","
+				for tt, want := range perTag {
+					if !bytes.Equal(cont.GetBytes(tt), want) {
+						c.Report("sets/get-between-sets/"+cls, fmt.Sprintf("GetBytes(%d) between two sets differs from what was set so far", tt), cas)
+					}
+				}
 				continue
 			}
 			cont.SetBytes(byte(t), v)
